@@ -37,7 +37,7 @@ COMPONENTS = {
     "stub": ["CAN backend (SimBus)", "can.Notifier", "threading.Condition in canopen.pdo.base (simulator primitive)", "python-can cyclic task (SimCyclicTask)"],
 }
 PROBES = ["tpdo-direction", "rpdo-direction", "config-by-save-read", "colliding-cob-ids", "sub-byte-field", "unaligned-multibyte", "callback", "rtr-sent",
-          "rtr-suppressed", "reconfigured", "frame-on-old-cob-id", "wait-returned", "wait-none", "periodic"]
+          "rtr-suppressed", "reconfigured", "frame-on-old-cob-id", "wait-returned", "wait-none", "periodic", "mode-T"]
 
 TYPES8 = (odm.UNSIGNED8, odm.INTEGER8, odm.BOOLEAN)
 FULL = [odm.UNSIGNED8, odm.INTEGER8, odm.BOOLEAN, odm.UNSIGNED16, odm.INTEGER16, odm.UNSIGNED24, odm.INTEGER24, odm.UNSIGNED32, odm.INTEGER32,
@@ -322,14 +322,97 @@ def transmit_and_check(ctx, w, pairs, pair, what, periodic=False):
             ctx.violation("C15/consumer-timestamp", "%s: no timestamp" % what)
 
 
+def _mode_t(ctx, direction):
+    """Mode T: a producer task transmits while a waiter task sits in
+    wait_for_reception; receive tasks deliver; the seeded scheduler decides the
+    interleaving.  Judged: a returned timestamp belongs to a frame received
+    after the waiter entered the wait; None only if nothing was received
+    between entering the wait and its deadline."""
+    import os
+    from simcan import patch
+    npre = ctx.choice(3, "npreempt") if ctx.choice(3, "preq") == 0 else 0
+    ctx.enable_threads((0, 4, 16)[ctx.choice(3, "policy")], [1 + ctx.choice(3000, "prepos") for _ in range(npre)],
+                       os.path.join(patch.REPO, "canopen"))
+    w = W(ctx)
+    pair = Pair(w, direction, 1)
+    configure(ctx, w, pair, 0x180 + w.nid if direction == "tpdo" else 0x200 + w.nid, gen_layout(ctx), via_save=False)
+    cons, prod = pair.cons, pair.prod
+    receptions = []         # (virtual time, timestamp) logged inside on_message
+    cons.add_callback(lambda m: receptions.append((ctx.now, m.timestamp)))
+    entries = []
+    cond = cons.receive_condition
+    orig_wait = cond.wait
+
+    def wait_logged(timeout=None):
+        entries.append(ctx.now)
+        return orig_wait(timeout)
+    cond.wait = wait_logged
+    nframes = ctx.choice(5, "nframes")
+    gaps = [ctx.choice(6, "gap") for _ in range(nframes)]
+    nwaits = 1 + ctx.choice(3, "nwaits")
+    timeouts = [(0.002, 0.02, 0.2)[ctx.choice(3, "timeout")] for _ in range(nwaits)]
+    results = []
+    snaps = []
+
+    def producer():
+        for g in gaps:
+            prims_sleep((0, 0.0005, 0.003, 0.015, 0.05, 0.3)[g])
+            assign(ctx, pair, "producer task")
+            snaps.append(list(pair.values))
+            prod.transmit()
+
+    def prims_sleep(sec):
+        ctx.sleep(sec)
+
+    def waiter():
+        for to in timeouts:
+            t0 = ctx.now
+            n0 = len(entries)
+            r = cons.wait_for_reception(to)
+            results.append((t0, entries[n0] if len(entries) > n0 else None, ctx.now, to, r))
+    ctx.spawn("producer", producer)
+    ctx.spawn("waiter", waiter)
+    ctx.run_tasks()
+    for t in ctx.tasks:
+        if t.exc is not None:
+            raise t.exc
+    for (t0, entered, t1, to, r) in results:
+        what = "Mode T %s: wait_for_reception(%s) called at %.6f, waiting from %s, returned %r at %.6f; receptions %s" % (
+            direction, to, t0 / SEC - 1000, None if entered is None else "%.6f" % (entered / SEC - 1000), r, t1 / SEC - 1000,
+            ["%.6f" % (a / SEC - 1000) for a, b in receptions])
+        if entered is None:
+            ctx.violation("C15/waiter-never-waited", what)
+        window = [(a, ts) for a, ts in receptions if entered <= a < entered + int(to * SEC)]
+        if r is None:
+            if window:
+                ctx.violation("C15/waiter-not-woken", what)
+            ctx.probe("wait-none")
+        else:
+            ok = [ts for a, ts in receptions if a >= entered and a <= t1 and ts == r]
+            if not ok:
+                ctx.violation("C15/waiter-timestamp", what)
+            ctx.probe("wait-returned")
+        ctx.cover((direction, "T-wait", len(window) > 0, r is not None, npre))
+    # and the data the consumer holds is the last frame's
+    if receptions:
+        vals = snaps[len(receptions) - 1]       # (the last frame may still be on the wire when both tasks are done)
+        for i, (t, c, ln) in enumerate(pair.layout):
+            v = vals[i]
+            if v is not None and not same(t, v, cons[i].raw):
+                ctx.violation("C15/consumer-reads-other-value/mode-T", "after %d of %d frames: producer's value %r, consumer reads %r" % (len(receptions), len(snaps), v, cons[i].raw))
+
+
 def scenario(ctx):
-    mode = ctx.choice(3, "mode")
+    mode = ctx.choice(4, "mode")
     d = ctx.choice(2, "dir")
     ti = ctx.choice(len(FULL), "ti")
     fl = ctx.choice(8, "fl")
     fo = ctx.choice(8, "fo")
-    w = W(ctx)
     direction = ("tpdo", "rpdo")[d]
+    if mode == 3:
+        ctx.probe("mode-T")
+        return _mode_t(ctx, direction)
+    w = W(ctx)
     ctx.probe(direction + "-direction")
     if mode in (1, 2):
         pair = Pair(w, direction, 1)
